@@ -63,6 +63,91 @@ def sx_tuple_constraints(X, row, got, Vn):
                    sx.eq(b1, sx_rand(X, 5, P1, Vn)))
 
 
+def check_tuples(ctx, ex, t2, p1t, tag, replay, prefix="c15", rows=None):
+    """Per Table-2 row: Tuple[] never panics, lies in range and equals the RFC transcription, X symbolic."""
+    rep = ctx.report
+    thorough = ctx.tier == "thorough"
+    Vn = ("V0", "V1", "V2", "V3")
+    if True:
+        # --- C. Tuple[] per row
+        rows = list(range(477)) if rows is None else rows
+        nrows = len(rows)
+        jobs = []
+        for row in rows:
+            kp, J, S, H, W = t2[row] if row < len(t2) else rfc.TABLE2[row]
+            P1 = p1t[row][1]
+            X = sx.var("X", 32)
+            outs = ex.call("intermediate_tuple", [Int(X, "u32"), Int(sx.const(W), "u32"), Int(sx.const(J), "u32"), Int(sx.const(P1), "u32")])
+            xr = sx.lt(X, sx.const((1 << 24) + kp))
+            bad = [o for o in outs if o.kind != "ret"]
+            rets = [o for o in outs if o.kind == "ret"]
+            q1 = sx.IntPrinter().script([xr, sx.or_(*[o.cond for o in bad])], ["X"]) if bad else None
+            viol = []
+            for o in rets:
+                d, a, b, d1, a1, b1 = [f.t for f in o.value.fields]
+                ranges = sx.and_(sx.le(sx.const(1), d), sx.le(d, sx.const(min(30, W - 2))), sx.le(sx.const(1), a), sx.lt(a, sx.const(W)),
+                                 sx.lt(b, sx.const(W)), sx.or_(sx.eq(d1, sx.const(2)), sx.eq(d1, sx.const(3))),
+                                 sx.le(sx.const(1), a1), sx.lt(a1, sx.const(P1)), sx.lt(b1, sx.const(P1)))
+                spec = sx_tuple_constraints(X, row, (d, a, b, d1, a1, b1), Vn)
+                viol.append(sx.and_(o.cond, sx.not_(sx.and_(ranges, spec))))
+            q2 = sx.IntPrinter().script([xr, sx.or_(*viol)], ["X"])
+            jobs.append((row, kp, q1, q2, [o.msg for o in bad]))
+        rep.functions = sorted(set(rep.functions) | ex.functions_executed)
+        rep.stubs = sorted(set(rep.stubs) | ex.models_used)
+        tmo = 60 if not thorough else 300
+
+        def work(job):
+            row, kp, q1, q2, msgs = job
+            r1 = sx.portfolio(q1, tmo, ("z3",))[1][0] if q1 else None
+            r2 = sx.portfolio(q2, tmo, ("z3",))[1][0]
+            return job, r1, r2
+        t0 = time.time()
+        with cf.ThreadPoolExecutor(ctx.jobs) as pool:
+            results = list(pool.map(work, jobs))
+        n_q = 0
+        panic_unsat = tuple_unsat = 0
+        for (row, kp, q1, q2, msgs), r1, r2 in results:
+            for what, r in (("no-panic", r1), ("ranges+rfc-equality", r2)):
+                if r is None:
+                    panic_unsat += 1      # no panic path at all survived interval simplification
+                    continue
+                n_q += 1
+                if r.status == "unsat":
+                    if what == "no-panic":
+                        panic_unsat += 1
+                    else:
+                        tuple_unsat += 1
+                    continue
+                name = "%s/tuple/%s/K'=%d[%s]" % (prefix, what, kp, tag)
+                if r.status != "sat":
+                    rep.inconclusive(name, "%s %s" % (r.status, r.raw[-200:]), r.time_s, "smt")
+                    continue
+                x = r.model.get("X")
+                if what == "no-panic":
+                    if x >= kp:
+                        nat = replay.both(["repair", kp, 1, x - kp, 1])
+                    else:
+                        nat = replay.both(["encode-block", 1, "00" * kp])
+                    repro = [k for k, v in nat.items() if v.startswith("panic")]
+                    if repro:
+                        rep.violated(name, "tuple-panic K'=%d X=%d" % (kp, x),
+                                     "producing the symbol with internal id %d of a K'=%d block panics natively in %s: %s" % (x, kp, repro, nat[repro[0]]),
+                                     {"kind": "tuple-panic", "K": kp, "X": x, "native": nat, "panic_paths": msgs}, r.time_s, "smt")
+                    else:
+                        rep.inconclusive(name, "model X=%d does not panic natively: %s" % (x, nat), r.time_s, "smt")
+                else:
+                    # independent concrete evaluation of the transcription vs. the real packets
+                    rep.violated(name, "tuple-mismatch K'=%d" % kp,
+                                 "Tuple[K'=%d, X=%d] computed by the current source differs from the RFC transcription or leaves its range" % (kp, x),
+                                 {"kind": "tuple-mismatch", "K": kp, "X": x, "rfc_tuple": list(rfc.tuple_(rfc.Params(kp), x)),
+                                  "note": "evaluate base::intermediate_tuple on these arguments"}, r.time_s, "smt")
+        dt = time.time() - t0
+        rep.held("%s/tuple/no-panic/all-%d-rows[%s]" % (prefix, nrows, tag), "%d rows unsat" % panic_unsat, dt / 2, "smt/z3", rows_unsat=panic_unsat) if panic_unsat == nrows else None
+        rep.held("%s/tuple/ranges+rfc-equality/all-%d-rows[%s]" % (prefix, nrows, tag), "%d rows unsat" % tuple_unsat, dt / 2, "smt/z3", rows_unsat=tuple_unsat) if tuple_unsat == nrows else None
+        rep.coverage.setdefault("smt_queries", 0)
+        rep.coverage["smt_queries"] += n_q
+
+
 def run(ctx):
     rep = ctx.report
     thorough = ctx.tier == "thorough"
@@ -157,82 +242,7 @@ def run(ctx):
             discharge(ctx, "c15/lookup/%s-refuses-K>56403[%s]" % (fn, tag), [sx.not_(inrange), returned], ["K"],
                       replay=lambda m: None, kind="lookup")
         rep.functions = sorted(set(rep.functions) | ex.functions_executed)
-        # --- C. Tuple[] per row
-        rows = list(range(477))
-        jobs = []
-        for row in rows:
-            kp, J, S, H, W = t2[row] if row < len(t2) else rfc.TABLE2[row]
-            P1 = p1t[row][1]
-            X = sx.var("X", 32)
-            outs = ex.call("intermediate_tuple", [Int(X, "u32"), Int(sx.const(W), "u32"), Int(sx.const(J), "u32"), Int(sx.const(P1), "u32")])
-            xr = sx.lt(X, sx.const((1 << 24) + kp))
-            bad = [o for o in outs if o.kind != "ret"]
-            rets = [o for o in outs if o.kind == "ret"]
-            q1 = sx.IntPrinter().script([xr, sx.or_(*[o.cond for o in bad])], ["X"]) if bad else None
-            viol = []
-            for o in rets:
-                d, a, b, d1, a1, b1 = [f.t for f in o.value.fields]
-                ranges = sx.and_(sx.le(sx.const(1), d), sx.le(d, sx.const(min(30, W - 2))), sx.le(sx.const(1), a), sx.lt(a, sx.const(W)),
-                                 sx.lt(b, sx.const(W)), sx.or_(sx.eq(d1, sx.const(2)), sx.eq(d1, sx.const(3))),
-                                 sx.le(sx.const(1), a1), sx.lt(a1, sx.const(P1)), sx.lt(b1, sx.const(P1)))
-                spec = sx_tuple_constraints(X, row, (d, a, b, d1, a1, b1), Vn)
-                viol.append(sx.and_(o.cond, sx.not_(sx.and_(ranges, spec))))
-            q2 = sx.IntPrinter().script([xr, sx.or_(*viol)], ["X"])
-            jobs.append((row, kp, q1, q2, [o.msg for o in bad]))
-        rep.functions = sorted(set(rep.functions) | ex.functions_executed)
-        rep.stubs = sorted(set(rep.stubs) | ex.models_used)
-        tmo = 60 if not thorough else 300
-
-        def work(job):
-            row, kp, q1, q2, msgs = job
-            r1 = sx.portfolio(q1, tmo, ("z3",))[1][0] if q1 else None
-            r2 = sx.portfolio(q2, tmo, ("z3",))[1][0]
-            return job, r1, r2
-        t0 = time.time()
-        with cf.ThreadPoolExecutor(ctx.jobs) as pool:
-            results = list(pool.map(work, jobs))
-        n_q = 0
-        panic_unsat = tuple_unsat = 0
-        for (row, kp, q1, q2, msgs), r1, r2 in results:
-            for what, r in (("no-panic", r1), ("ranges+rfc-equality", r2)):
-                if r is None:
-                    panic_unsat += 1      # no panic path at all survived interval simplification
-                    continue
-                n_q += 1
-                if r.status == "unsat":
-                    if what == "no-panic":
-                        panic_unsat += 1
-                    else:
-                        tuple_unsat += 1
-                    continue
-                name = "c15/tuple/%s/K'=%d[%s]" % (what, kp, tag)
-                if r.status != "sat":
-                    rep.inconclusive(name, "%s %s" % (r.status, r.raw[-200:]), r.time_s, "smt")
-                    continue
-                x = r.model.get("X")
-                if what == "no-panic":
-                    if x >= kp:
-                        nat = replay.both(["repair", kp, 1, x - kp, 1])
-                    else:
-                        nat = replay.both(["encode-block", 1, "00" * kp])
-                    repro = [k for k, v in nat.items() if v.startswith("panic")]
-                    if repro:
-                        rep.violated(name, "tuple-panic K'=%d X=%d" % (kp, x),
-                                     "producing the symbol with internal id %d of a K'=%d block panics natively in %s: %s" % (x, kp, repro, nat[repro[0]]),
-                                     {"kind": "tuple-panic", "K": kp, "X": x, "native": nat, "panic_paths": msgs}, r.time_s, "smt")
-                    else:
-                        rep.inconclusive(name, "model X=%d does not panic natively: %s" % (x, nat), r.time_s, "smt")
-                else:
-                    # independent concrete evaluation of the transcription vs. the real packets
-                    rep.violated(name, "tuple-mismatch K'=%d" % kp,
-                                 "Tuple[K'=%d, X=%d] computed by the current source differs from the RFC transcription or leaves its range" % (kp, x),
-                                 {"kind": "tuple-mismatch", "K": kp, "X": x, "rfc_tuple": list(rfc.tuple_(rfc.Params(kp), x)),
-                                  "note": "evaluate base::intermediate_tuple on these arguments"}, r.time_s, "smt")
-        dt = time.time() - t0
-        rep.held("c15/tuple/no-panic/all-477-rows[%s]" % tag, "%d rows unsat" % panic_unsat, dt / 2, "smt/z3", rows_unsat=panic_unsat) if panic_unsat == 477 else None
-        rep.held("c15/tuple/ranges+rfc-equality/all-477-rows[%s]" % tag, "%d rows unsat" % tuple_unsat, dt / 2, "smt/z3", rows_unsat=tuple_unsat) if tuple_unsat == 477 else None
-        rep.coverage.setdefault("smt_queries", 0)
-        rep.coverage["smt_queries"] += n_q
+        check_tuples(ctx, ex, t2, p1t, tag, replay)
     # --- D. Kani: Enc[] index generation (started first, runs in a thread next to the SMT queries)
     kani_thread.join()
     rep.coverage["exhaustive"] = True
